@@ -179,14 +179,21 @@ func (w *Writer) encodeChar(c uint) {
 
 		// if node's address is odd-numbered, choose bigger brother node
 		if k&1 != 0 {
-			i += 0x8000
+			i += 0x80000000
 		}
 
 		if k = w.z.prnt[k]; k == _R {
 			break
 		}
 	}
-	w.putCode(j, i)
+
+	// the code is left-aligned in 32 bits, putCode takes 16 at a time
+	if j > 16 {
+		w.putCode(16, i>>16)
+		w.putCode(j-16, i&0xffff)
+	} else {
+		w.putCode(j, i>>16)
+	}
 	w.z.update(int(c))
 }
 
